@@ -899,7 +899,7 @@ def check_signature(ctx, db):
         mine = [p_ for p_ in problems if p_.startswith(qn.replace('gdstk::', '')) or p_.startswith(qn)]
         ctx.check(not mine, 'R-MODEL.accumulator', qn.replace('gdstk::', '') + '/bytes-file-signature', db.fn(qn).loc(),
                   'in every stream state the bytes go to the buffer or to the file and - exactly once, in order - into the selected signature', '; '.join(mine[:2]))
-    ctx.require('R-MODEL.accumulator runs', runs, 38)
+    ctx.require('R-MODEL.accumulator runs', runs, 76)
 
 
 def check_cblock(ctx, db):
